@@ -214,11 +214,21 @@ def run(tier, seed):
                          "inst": {k: v for k, v in rec["inst"].items() if k not in ("pts", "D")}, "actions": rec["actions"],
                          "detail": "loader batch %d reported reward %s candidates %s greedy %s" % (rec["loader_batch"], rec["reward"], rec["cands"], rec["greedy"])})
         samples.append({k: recs[-1][k] for k in ("method", "actions", "reward", "cands", "greedy")})
+    # ant-colony search of DeepACO (ACO.tla / ACOTrace.tla): reported result = best over all ants x iterations of the own instance
+    from . import c15c_aco
+    va, ca = c15c_aco.violations(tier, seed, parts=("model", "e2e"))
+    viol += [v for v in va if v["property"] == "C15"]
+    states += ca["states"]
+    trans += ca["transitions"]
+    nrep += ca["replayed"]
     n_new, n_known = verdict.report("C15", viol)
     cov = {"states": states, "transitions": trans, "traces_validated_against_impl": nrep + ntr, "samples": samples, "exhaustive": True,
            "replayed_points_x_copies": nrep, "eval_records": ntr, "known_finding_witnesses": n_known,
+           "ant_colony_search": {k: v for k, v in ca.items() if k != "samples"},
            "explanation": "Augment.tla model-checked and replayed into dihedral_8_augmentation; symmetric augmentation and all evaluation "
-                          "classes validated on recorded executions (AugTrace.tla, EvalTrace over the TSP/CVRP problem definitions)"}
+                          "classes validated on recorded executions (AugTrace.tla, EvalTrace over the TSP/CVRP problem definitions); ACO.tla: all "
+                          "behaviours of the ant-colony search of a small scope replayed into the real AntSystem.run with scripted draws, real "
+                          "DeepACOPolicy evaluation runs validated by ACOTrace.tla"}
     verdict.write_evidence("C15", tier, seed, "model_checking", cov,
                            ["coordinate-sensitive table policy as stub decoder", "exact lattice instances so that rewards are integers"],
                            time.time() - t0, n_new)
